@@ -40,7 +40,7 @@ def pregen(check):
 
 CFG = {
     "id": "C16",
-    "lean_modules": ["GeomV.C16.Proofs", "GeomV.C16.LayoutProofs", "GeomV.C16.EndToEnd", "GeomV.C16.TieGeom", "GeomV.C16.ReflectProofs", "GeomV.C16.ProofsFields", "GeomV.C16.ShxProofs"],
+    "lean_modules": ["GeomV.C16.Proofs", "GeomV.C16.LayoutProofs", "GeomV.C16.EndToEnd", "GeomV.C16.TieGeom", "GeomV.C16.ReflectProofs", "GeomV.C16.ProofsFields", "GeomV.C16.ShxProofs", "GeomV.C16.FloatCertProofs", "GeomV.C16.ProofsFloat", "GeomV.C16.WrapProofs"],
     "exe": "geomv_c16",
     "go_cmd": "c16",
     "stages": ["go:gen", "go:impl", "lean:judge"],
@@ -56,8 +56,10 @@ CFG = {
                                  "GenGeom.tie_getStartEnd", "GenGeom.tie_polygon2geom", "GenGeom.tie_polyLine2geom", "GenGeom.tie_point2geom", "GenGeom.tie_multiPoint2geom", "GenGeom.tie_shp2Geom",
                                  "GenGeom.tie_geom2point", "GenGeom.tie_geom2polygon_ring", "GenGeom.tie_geom2polygon", "GenGeom.tie_geom2polyLine", "GenGeom.tie_geom2multiPoint", "GenGeom.tie_geom2Shp",
                                  "Reflect.refl_conservative", "Reflect.refl_conservative_newEncoder", "Reflect.refl_conservative_encode", "Reflect.refl_conservative_decodeField", "Reflect.refl_conservative_decodeFields", "Reflect.refl_conservative_read", "Reflect.refl_skipped_fields", "Reflect.refl_unsupported_panics", "Reflect.newEncoderR_cols", "Reflect.refl_strict_loop_stop", "Reflect.refl_stop_column", "Reflect.refl_unexported_column", "Reflect.refl_named_type_err", "Reflect.refl_unexported_geometry", "Reflect.refl_decode_untouched", "Reflect.refl_decode_untouched_anywhere", "Reflect.refl_decode_matched_bad_kind_panics", "Reflect.refl_bad_kind_ends_read", "Reflect.refl_ptr_geom", "Reflect.refl_ptr_geom_shape", "Reflect.refl_unexported_geom_reader", "Reflect.refl_match", "Reflect.refl_match_none", "Reflect.refl_embedded_inner_invisible",
-                                 "C16_fields_roundtrip", "C16_float_text", "fmtFloat_solid", "strOf_render", "rowFields_val",
+                                 "C16_fields_roundtrip", "C16_float_cell_text", "fmtFloat_solid", "strOf_render", "rowFields_val",
                                  "Layout.C16_shx_invariant", "Layout.C16_shx_entries", "Layout.C16_stepMin", "Layout.C16_stepMax", "Layout.C16_box_polyline", "Layout.C16_record_box", "Layout.C16_box_multipoint", "Layout.C16_box_multipoint_minX", "Layout.C16_header_box", "Layout.C16_header_box_minX",
+                                 "C16_float_cert", "C16_float_cert_rne", "C16_float_text", "C16_float_universal", "C16_float_nonfinite", "C16_floatCellCert_all", "C16_floatFmt_instance", "C16_float_unconditional", "C16_struct_roundtrip_float",
+                                 "Wrap.createW_none_iff", "Wrap.createW_within", "Wrap.encodeFieldsW_within", "Wrap.runW_within", "Wrap.encodeFieldsW_panics", "Wrap.cellOffW_nonneg", "Wrap.readAttributeW_within", "Wrap.wrap_regimes",
                                  "Gen.tie_widths", "Gen.tie_columns", "Gen.tie_lookup", "Gen.tie_cuts", "Gen.tie_write_order"]],
     "trusted_base": [
         "Lean 4.33.0 kernel; axioms of every theorem printed by #print axioms must be within {propext, Classical.choice, Quot.sound}",
@@ -65,7 +67,8 @@ CFG = {
         "harness/cmd/c16/extract/geom.go (go/ast, statement level) translates the functions of encoding/shp/shp2geom.go into GenGeom.lean faithfully; vocabulary GenGeomLib.lean (Go int as Int without 64-bit overflow, []int32 parts as Nat, make/index/append with faults, for/range loops); TieGeom.lean proves generated = model",
         "model lean/GeomV/C16/Model.lean is tied to /repo/encoding/shp/{shp.go,shp2geom.go} by the correspondence run through real temporary shapefiles (both encoder and both decoder paths, token-exact) on every check",
         "go-shp's .shp/.shx/.dbf byte layout (github.com/jonas-p/go-shp, pinned by go.sum h1:h5O7ee4tlSPVjdC75eSLX7jXZiHftthuHio/GtrhaSM=, checked by the harness at run time) is transcribed in lean/GeomV/C16/Layout.lean and tied by comparing, for every case, the model's .shp/.shx/.dbf bytes with the bytes of the real temporary files (exact) and the real bytes read back through the layout reader with the abstract row store; that the layout implements the row store is proved (Layout.C16_container); encoding/binary, os.File Seek/Write semantics (a gap past the end reads as zeros) are trusted",
-        "Go strconv (Itoa/ParseInt/FormatFloat 'f'/ParseFloat correctly rounded), strings.Trim/ToLower, reflect behave as documented",
+        "Go strconv (Itoa/ParseInt/FormatFloat 'f'/ParseFloat correctly rounded), strings.Trim/ToLower, reflect behave as documented; that a FormatFloat('f',p) text read by a correctly rounding parser is within 10^-p of the value is no longer assumed but proved on the model (C16_float_universal, C16_floatFmt_instance; parser = C17 Dec.toBits, proved IEEE round-to-nearest-even)",
+        "lean/GeomV/C16/Wrap.lean transcribes what go-shp does with int16 counters that wrapped (header >= 2^15 bytes: constructor panics; attribute row 2^15..2^16 bytes: every write panics after the shape record; > 2^16: overlapping rows; reader: signed lengths, failed Seek leaves the handle); tied by the `wide` correspondence family (exact tokens and bytes), proved equal to Layout.lean within WidthsOK (Wrap.runW_within)",
         "harness/cmd/c16 + lean driver + lib/vcheck.py transport inputs faithfully",
     ],
     "assumptions": [
@@ -79,6 +82,8 @@ CFG = {
             "order, dropped/unmatched fields) or DecodeRowFields, or a reading SCHEDULE on one Decoder (record i read with call i mod k, k=2..4: DecodeRowFields with all names / subset / permuted / duplicates / none, mixed with DecodeRow); DecodeRow decodes into a fresh record variable per row or into ONE reused variable (per call site), with zero values ("", 0, 0.0) alternating with non-zero ones; 0-300 records of one geometry kind (point, multipoint, LineString, MultiLineString 0-6 parts "
             "incl. empty, polygon 0-5 rings closed/unclosed/closed-up-to-signed-zero, *Bounds incl. zero height/width, nil in NULL files), coordinates from random "
             "bit patterns/NaN payloads/+-0/+-Inf/subnormals/ordinary values; ints, floats and strings at the column-width boundaries. "
+            "wide family (10 per quick run, 60 thorough): field lists of 128-385 columns of 255 bytes and 1022-1028 narrow columns, i.e. attribute rows/headers just below and beyond go-shp's int16 counters, 0-4 records with 0-3 or all values, names incl. the last column and a missing one (classes -wide: model Wrap.lean vs code, DIFF only); "
+            "a third of the file cases run with COMPANION objects: a second Encoder (own file, fed every other record in between the main calls) and a second Decoder on the main file advanced in between the main calls - the main results must be unaffected; "
             "field-path files also contain records with 1-2 values MORE than columns (index panic after the cells were written, cursor left behind) followed by further records; "
             "rfile lines: statically declared writer/reader struct types with embedded structs, unexported fields, pointer fields, named types, unsupported kinds, duplicate tags (field descriptions computed by reflection), 0-4 records each; "
             "every row's result (struct, map, geometry) is kept and printed only after the read loop reached the end of the file and Decoder.Close() ran; the bytes of the three real files are part of every answer. "
